@@ -212,9 +212,13 @@ func (p *packet) modifyParameters() (*modifyParameters, error) {
 		if len(modificationPacket.Children) < childModificationValues+1 {
 			return nil, fmt.Errorf("%s: missing modification values packet: %w", op, ErrInvalidParameter)
 		}
+		// every value of the SET OF values becomes one element, in its BER
+		// encoded (tag, length, value) form which ConvertString unwraps.
 		chg.Modification.Vals = make([]string, 0, len(modificationPacket.Children)-1)
-		for _, value := range modificationPacket.Children[1:] {
-			chg.Modification.Vals = append(chg.Modification.Vals, value.Data.String())
+		for _, values := range modificationPacket.Children[1:] {
+			for _, value := range values.Children {
+				chg.Modification.Vals = append(chg.Modification.Vals, string(value.Bytes()))
+			}
 		}
 
 		parameters.changes = append(parameters.changes, chg)
